@@ -1,4 +1,4 @@
-From Tetl Require Import Lib.Base C06b.Model C06b.Spec.
+From Tetl Require Import Lib.Base C06b.Model C06b.Spec C06b.ModelNumT.
 Require Extraction.
 Require Import ExtrOcamlBasic.
 Extraction Language OCaml.
@@ -18,4 +18,7 @@ Extraction "C06b_model.ml" wire_anchor
   partition_point_s lower_bound_s upper_bound_s equal_range_s binary_search_s includes_s merge_s
   set_difference_s set_intersection_s set_union_s set_symmetric_difference_s
   min_s max_s minmax_s clamp_s min_element_s max_element_s minmax_element_s is_permutation_s
-  accumulate_s inner_product_s transform_reduce1_s partial_sum_s adjacent_difference_s iota_s.
+  accumulate_s inner_product_s transform_reduce1_s partial_sum_s adjacent_difference_s iota_s
+  common accumulate_t reduce_t reduce0_t inner_product_t transform_reduce_t transform_reduce4_t transform_reduce1_t
+  partial_sum_t adjacent_difference_t iota_t
+  accumulate_ts inner_product_ts transform_reduce1_ts partial_sum_ts adjacent_difference_ts iota_ts.
